@@ -7,6 +7,9 @@ From Minter Require RewardRule.
 From Minter Require Ranking.
 From Minter Require Punish.
 From Minter Require EventStore.
+From Minter Require GenesisRun.
+From Minter Require SwapTx.
+From Minter Require SwapTxRun.
 From Minter Require Crash.
 From Minter Require Schedule ScheduleRun.
 Open Scope Z_scope.
@@ -241,6 +244,8 @@ Definition dispatch (model : Z) (ops : list (list Z)) : list (list Z) :=
   | 14 => map Punish.run_punish_op ops
   | 15 => map Ranking.run_ranking_op ops
   | 16 => Crash.crash_run ops
+  | 18 => map GenesisRun.run_genesis_op ops
+  | 19 => run_states SwapTxRun.swaptx_step SwapTxRun.swaptx_init ops
   | 20 => run_states ScheduleRun.schedule_step ScheduleRun.schedule_init ops
   | 13 => run_states RewardRule.rewardrule_step RewardRule.rewardrule_init ops
   | _ => map (fun _ => [-1]) ops
